@@ -1,6 +1,25 @@
-(* C14 - both parsers are total: any input ends in families or ValueError.  Statements only. *)
+(* C14 - both parsers are total: any input ends in families or ValueError.  Statements only.
+   Text half: model/TextParser.v.  CPython's int()/float() are arbitrary functions str -> option NUM
+   (their type is their contract: return or raise ValueError); `v / 1000` may raise (div1000 : NUM -> res NUM).
+   The theorem holds for EVERY such oracle, both validation modes and every input string, and includes
+   termination: the model's loops are fuelled and OutOfFuel is not among the possible outcomes. *)
 From V Require Import lib.PyBase lib.PyStr model.Validation model.TextParser proofs.TextParserTotal.
 Open Scope N_scope.
+
+Theorem C14_text_total :
+  forall (legacy : bool) (NUM : Type) (parse_num parse_float : str -> option NUM) (div1000 : NUM -> res NUM)
+         (s : str),
+    only_VE (text_parse legacy true NUM parse_num parse_float div1000 true s).
+Proof. exact text_parse_total. Qed.
+Print Assumptions C14_text_total.
+
+(* the same outcome on every run: the parser model is a function of the input and the oracles *)
+Theorem C14_text_deterministic :
+  forall legacy NUM parse_num parse_float div1000 s r1 r2,
+    text_parse legacy true NUM parse_num parse_float div1000 true s = r1 ->
+    text_parse legacy true NUM parse_num parse_float div1000 true s = r2 -> r1 = r2.
+Proof. exact (fun _ _ _ _ _ _ r1 r2 H1 H2 => eq_trans (eq_sym H1) H2). Qed.
+Print Assumptions C14_text_deterministic.
 
 (* name/label tokens: with the repair, unquoting never raises anything but ValueError *)
 Theorem C14_unquote_unescape_total : forall t, only_VE (unquote_unescape_with true t).
@@ -8,6 +27,20 @@ Proof. exact unquote_unescape_fixed_VE. Qed.
 Print Assumptions C14_unquote_unescape_total.
 
 (* the pinned source indexes the stripped-empty token: '# HELP <U+001C> x' escapes with IndexError *)
-Theorem C14_unquote_unescape_orig_refuted : exists t, unquote_unescape_with false t = Err IndexError.
-Proof. exact (ex_intro _ [28] unquote_unescape_orig_IndexError). Qed.
-Print Assumptions C14_unquote_unescape_orig_refuted.
+Theorem C14_text_total_orig_refuted_IndexError :
+  exists s, text_parse false false unit (fun _ => None) (fun _ => None) (fun x => Ok x) true s = Err IndexError.
+Proof. exact (ex_intro _ (s2l "# HELP " ++ [28; 32; 120]) eq_refl). Qed.
+Print Assumptions C14_text_total_orig_refuted_IndexError.
+
+(* the pinned source lets the OverflowError of `int / 1000` escape: 'a 1 <huge int>' *)
+Theorem C14_text_total_orig_refuted_OverflowError :
+  exists s, text_parse false true unit (fun _ => Some tt) (fun _ => None) (fun _ => Err OverflowError) false s
+            = Err OverflowError.
+Proof. exact (ex_intro _ (s2l "a 1 2") eq_refl). Qed.
+Print Assumptions C14_text_total_orig_refuted_OverflowError.
+
+(* parse_labels called DIRECTLY on a string starting with a closing brace never terminates in the Python
+   source (model: fuel exhausted); the theorem above shows the public entry point can never do that *)
+Example C14_parse_labels_direct_loops :
+  parse_labels false true (s2l "}x") false = Err OutOfFuel.
+Proof. vm_compute. reflexivity. Qed.
